@@ -118,6 +118,7 @@ Definition u_obj (id : nat) (obj : pyval) : option errtype :=
   match id with
   | 0%nat => None
   | 1%nat => Some (CustomErr 1)
+  | 3%nat => Some (CustomErr 100)          (* a SerializableErr *)
   | _ => if Z.even (obj_size obj) then None else Some (CustomErr 2)
   end.
 
